@@ -370,7 +370,7 @@ Record dbatch := mk_db { bx : leaf; by_ : leaf }.
 Record leafprog := mk_lp {
   lp_int : bool;                  (* int32 leaf (uses sum(batch.y)) or float32 leaf (uses sum(batch.x)) *)
   lp_shape : list Z;              (* array shape of the leaf (the model computes on the flattened leaf) *)
-  lp_dtype : Z;                   (* 0 float32, 1 int32, 3 float16, 4 bfloat16, 5 int8, 6 uint8, 7 bool *)
+  lp_dtype : Z;                   (* 0 float32, 1 int32, 3 float16, 4 bfloat16, 5 int8, 6 uint8, 7 bool, 8 complex64 (re, im pairs) *)
   lp_init : Z;  lp_ia : Q; lp_ib : Q;   (* 0: shared[k]   1: cin[k]   2: ia*shared[k] + ib*cin[k] *)
   lp_step : Z;  lp_a : Q; lp_b : Q; lp_d : Q; lp_e : Q; lp_inv : Z;
                                   (* 0: a*s + (b*g + d [+ e*(1/bsum) | + e*(bsum/bsum)])  1: batch.x  2: s  3: s + d  4: not s (bool: 1 - s) *)
@@ -535,13 +535,39 @@ Definition d_buffers_ok (p : prog) (cl : list dclient) : bool :=
   let (cb, n) := number_clients nl nl cl in
   own_ok false jit_init_copies (oprog_of p) (seq 0 nl) cb (mk_os n []).
 
+(* ---- exhaustive grid over _blockify: every vector of per-client batch counts in
+   [0, base)^n for a block size D.  Client i has id i+1, batches 100(i+1)+1.., input 1000+i;
+   zeros_like gives 0.  A blockify result is compared through a digest of its complete
+   content (ids with None as 0, client_mask, num_batches, every masked batch row, inputs). *)
+Fixpoint count_vectors (n : nat) (base : nat) : list (list nat) :=
+  match n with
+  | O => [[]]
+  | Datatypes.S n' => flat_map (fun c => map (cons c) (count_vectors n' base)) (seq 0 base)
+  end.
+
+Definition grid_clients (counts : list nat) : list (Z * list Z * Z) :=
+  map (fun ic => let '(i, c) := ic in
+         (Z.of_nat i + 1, map (fun j => 100 * (Z.of_nat i + 1) + Z.of_nat j + 1) (seq 0 c), 1000 + Z.of_nat i))
+      (combine (seq 0 (length counts)) counts).
+
+Definition b2z (b : bool) : Z := if b then 1 else 0.
+Definition encode_block (blk : @block Z Z Z) : list Z :=
+  map (fun o => match o with Some i => i | None => 0 end) (blk_id blk) ++ [-1] ++
+  map b2z (blk_mask blk) ++ [-2] ++ blk_nb blk ++ [-3] ++
+  flat_map (fun row => fst row ++ map b2z (snd row) ++ [-4]) (blk_mb blk) ++ blk_cin blk ++ [-5].
+Definition digest (l : list Z) : Z := fold_left (fun h x => (h * 131 + x + 7) mod 1000000007) l 0.
+Definition grid_digest (D : Z) (counts : list nat) : Z :=
+  digest (flat_map encode_block (blockify (fun _ : Z => 0) (fun _ : Z => 0) D (grid_clients counts))).
+
 Inductive C02_case :=
+| CGrid (D : Z) (n base : nat)
 | CRun (p : prog) (wsr : bool) (tol : Q) (D : Z) (sh : tree) (clients : list dclient)
 | CThreads (sched : list (nat * bop)).
 
 Inductive C02_obs :=
 | ORun (jit debug pmap : list oresult) (buffers_ok : bool)
-| OThreads (reads : list (nat * Z)).
+| OThreads (reads : list (nat * Z))
+| OGrid (digests : list Z).
 
 (* reads are compared by backend KIND: DEFAULT_BACKEND (0) is a jit backend *)
 Definition read_eqb (a b : nat * Z) : bool := Nat.eqb (fst a) (fst b) && (snd a =? snd b).
@@ -553,6 +579,7 @@ Definition C02_agree (c : C02_case) (o : C02_obs) : bool :=
       results_close p wsr tol (d_debug p wsr sh cl) od &&
       results_close p wsr tol (d_pmap p wsr D sh cl) op &&
       Bool.eqb ok (d_buffers_ok p cl)     (* no caller buffer deleted or changed *)
+  | CGrid D n base, OGrid ds => list_beq Z.eqb (map (grid_digest D) (count_vectors n base)) ds
   | CThreads sched, OThreads reads =>
       list_beq read_eqb (snd (run_sched (fun _ => ts0) sched)) reads
   | _, _ => false
